@@ -871,4 +871,29 @@ theorem jsd_le_entropy_weights (n : Nat) (hne : l ≠ []) (hlen : ∀ r ∈ l, r
 
 end JSD
 
+section JSDPerm
+
+theorem mixCol_perm {l l' : List (List ℝ × ℝ)} (h : l.Perm l') (x : Nat) :
+    mixCol l x = mixCol l' x := (h.map _).sum_eq
+
+/-- Permuting the components together with their weights leaves the JSD unchanged. -/
+theorem jsd_perm (log : ℝ → ℝ) {l l' : List (List ℝ × ℝ)} (h : l.Perm l') (n : Nat)
+    (hlen : ∀ r ∈ l, r.1.length = n) :
+    jsdVals log (l.map Prod.fst) (l.map Prod.snd)
+      = jsdVals log (l'.map Prod.fst) (l'.map Prod.snd) := by
+  unfold jsdVals
+  rw [lsum_eq_sum, lsum_eq_sum, zipWith_fst_snd, zipWith_fst_snd, (h.map _).sum_eq]
+  congr 2
+  by_cases hne : l = []
+  · subst hne
+    rw [List.nil_perm.mp h]
+  · have hne' : l' ≠ [] := fun e => hne (List.perm_nil.mp (e ▸ h))
+    have hlen' : ∀ r ∈ l', r.1.length = n := fun r hr => hlen r (h.mem_iff.mpr hr)
+    rw [mixVals_eq l n hne hlen, mixVals_eq l' n hne' hlen']
+    apply List.map_congr_left
+    intro x _
+    exact mixCol_perm h x
+
+end JSDPerm
+
 end Dit.Lemmas.Diverge
